@@ -13,6 +13,16 @@ NOTE_R = ("Mode R = IEEE specials over exact reals (no rounding/overflow/signed 
           "with instance axioms. Trusted: z3, the shim's model of NumPy element semantics, the oracles in /verif/spec and the harness. ")
 
 CHECKS = {
+    "C20": dict(
+        text="Bounded symbolic exploration: setting values are opaque symbols whose truth value and mutual equality are symbolic booleans "
+             "(so code that inspects a value forks and falsy / equal-to-current cases are covered); which of the 7 settings each nested "
+             "context names and whether a level is left by an exception are symbolic booleans decided by the explorer (all subsets at "
+             "depth 1, triples at depth 2, pairs at depth 3), with a direct assignment inside the innermost block; the real "
+             "Settings.context runs and per path every named key is identical to its entry value after exit, unnamed keys are exactly "
+             "what the block left, and Op.is_close (symbolic atol/rtol, SMT) / Op.str (decimals 0..9) observe the values in force.",
+        note="Path exploration with symbolic data (feasibility decided by z3) rather than arithmetic reasoning. Trusted: z3, the explorer, the "
+             "opaque-value model (equality an equivalence, one falsy value per setting). Nesting depth bounded; threads outside.",
+        ref="DESIGN.md §2 C20"),
     "C13": dict(
         text="Bounded symbolic verification: operation sequences over {set inputs+process, restart, copy, edit a parameter or rule weight, "
              "toggle-and-restore an enabled flag, batch step} run on six engines of registered components (incl. Linear/Function terms "
